@@ -57,7 +57,8 @@ def build(paths, bins, flavour="hooks"):
     env = cargo_env(paths, flavour)
     if flavour in SANITIZERS:
         cmd += ["+nightly"]
-        env["RUSTFLAGS"] = "--cfg hickory_dns_verif -Cforce-frame-pointers=yes -Cdebuginfo=1 " + SANITIZERS[flavour]
+        env["RUSTFLAGS"] = "--cfg hickory_dns_verif -Cforce-frame-pointers=yes " + SANITIZERS[flavour]
+        env["CARGO_PROFILE_DEV_DEBUG"] = "line-tables-only"  # source paths in sanitizer stacks
     cmd += ["build", "--offline", "--quiet"]
     if flavour == "shipped":
         cmd += ["--release"]
@@ -113,7 +114,7 @@ def sanitizer_reports(outdir, repo):
         m = re.search(r"(?:ERROR|WARNING): (AddressSanitizer|ThreadSanitizer|LeakSanitizer): ([^\n(]+)", txt)
         if not m:
             continue
-        kind = (m.group(1) + ": " + m.group(2)).strip()
+        kind = (m.group(1) + ": " + re.split(r" on (?:address|unknown address)| at pc ", m.group(2))[0]).strip()
         first_stack = []
         for line in txt[m.end():].splitlines():
             fm = re.match(r"\s+#\d+ 0x[0-9a-f]+ (?:in )?(\S+) (\S+)", line)
@@ -121,7 +122,12 @@ def sanitizer_reports(outdir, repo):
                 first_stack.append((fm.group(1), fm.group(2)))
             elif first_stack:
                 break
-        hit = next(((fn, loc) for fn, loc in first_stack if (repo.rstrip("/") + "/crates/") in loc), None)
+        # a frame belongs to hickory-dns if its source path lies under <repo>/crates (needs debuginfo) or its
+        # symbol is a hickory function / a method of a hickory type (`hickory_proto::…`, `<hickory_net::… as …>::…`);
+        # `<alloc::vec::Vec<hickory_proto::…>>::push` is a dependency's function and does not count
+        def in_hickory(fn, loc):
+            return (repo.rstrip("/") + "/crates/") in loc or re.match(r"<?(?:impl )?hickory_(proto|net|resolver|server|dns)\b", fn.lstrip("_")) is not None
+        hit = next(((fn, loc) for fn, loc in first_stack if in_hickory(fn, loc)), None)
         rec = {"kind": kind, "file": f, "frame": "%s %s" % (hit if hit else (first_stack[0] if first_stack else ("?", "?")))}
         (in_repo if hit else third).append(rec)
     return in_repo, third
@@ -435,7 +441,10 @@ def main(argv):
     # extra flavours (thorough only): same seeds under the shipped profile / sanitizers
     flavour_notes = {}
     if args.tier == "thorough":
-        for fl in spec.get("thorough_flavours", []):
+        flavours = spec.get("thorough_flavours", [])
+        if os.environ.get("VERIF_FLAVOURS") is not None:  # maintenance: restrict the flavours of this run
+            flavours = [f for f in os.environ["VERIF_FLAVOURS"].split(",") if f]
+        for fl in flavours:
             if fl == "miri":
                 flavour_notes[fl] = run_miri(paths, binname, seed, spec, os.path.join(paths.run, "fl-miri"), m, inconclusive, pid)
                 continue
